@@ -157,6 +157,16 @@ def eval_cond(c, env):
             return env[who]["assoc"]
     if k == "ctor" and c[1].startswith("Associativity::"):
         return c[1].split("::")[1]
+    if k == "ctor" and not c[2]:
+        return c[1].split("::")[-1]          # a constant of a later-introduced enum (which operand: `Position::Lhs`): matched by name
+    if k == "returns":
+        # early `return v` under conditions, then the fall-through value
+        for conds, val in c[1]:
+            if conds == ("fallthrough",):
+                return eval_cond(val, env)
+            if all(eval_path_cond(c_[0], env) is c_[1] for c_ in conds if len(c_) >= 2):
+                return eval_cond(val, env)
+        raise AnalysisGap("no exit of %r is taken" % (c,))
     if k == "op" and c[1] == "Not":
         return not eval_cond(c[2], env)
     if k == "lit":
